@@ -230,13 +230,14 @@ end extractthm
 section matthm
 variable {K : Type} [Field K] [StarRing K] [CharZero K] [HasI K] {d : Nat}
 
-/-- C18 `extract_rebuild` (H), matrix form, for a complete basis: `calc_h_mat` returns the traceless part of
-`H` (the identity component of a Hamiltonian does not act). `Complete B` (every matrix is the sum of its
-components) is a hypothesis here; it follows from orthonormality by a dimension count that is not formalised. -/
-theorem extract_h_of_rebuild_partial (B : Basis K d) (z : Fin (d * d)) (s : K) (hB : ONH0 B z s)
-    (hc : Complete B) (hii : (ii : K) * ii = -1)
+/-- C18 `extract_rebuild` (H), matrix form: `calc_h_mat` of the generator rebuilt from Hermitian `(H, J, K)`
+returns the traceless part of `H` (the identity component of a Hamiltonian does not act). Completeness of the
+basis is derived from orthonormality (`complete_of_onh0`). -/
+theorem extract_h_of_rebuild (B : Basis K d) (z : Fin (d * d)) (s : K) (hB : ONH0 B z s)
+    (hii : (ii : K) * ii = -1)
     (h j : Mat K d d) (k : Mat K (d * d - 1) (d * d - 1)) (hh : h.toMᴴ = h.toM) (hj : j.toMᴴ = j.toM) :
     (calcHMatCb B (cbFromHjk B h j k)).toM = h.toM - (h.toM.trace / (d : K)) • (1 : Matrix (Fin d) (Fin d) K) := by
+  have hc := complete_of_onh0 B z s hB
   rw [calcHMatCb_toM]
   simp only [extract_h_coef B z s hB hii h j k hh hj, sub_smul, Finset.sum_sub_distrib]
   rw [← hc h.toM]
@@ -247,15 +248,39 @@ theorem extract_h_of_rebuild_partial (B : Basis K d) (z : Fin (d * d)) (s : K) (
   congr 1
   ring
 
-/-- C18 `extract_rebuild` (J) with the proposed patch, matrix form, for a complete basis: the patched
-`calc_j_mat` (whole basis) returns `J`. -/
+/-- C18 `extract_rebuild` (J) with the proposed patch (`_partial`: about `calcJMatFixedCb`, not the coded
+`calc_j_mat`, for which the statement is false — `extract_rebuild_j_fails`): the patched `calc_j_mat`
+(whole basis) returns `J`. -/
 theorem extract_j_of_rebuild_fixed_partial (B : Basis K d) (z : Fin (d * d)) (s : K) (hB : ONH0 B z s)
-    (hc : Complete B)
     (h j : Mat K d d) (k : Mat K (d * d - 1) (d * d - 1)) (hh : h.toMᴴ = h.toM) (hj : j.toMᴴ = j.toM) :
     (calcJMatFixedCb B (cbFromHjk B h j k)).toM = j.toM := by
   rw [calcJMatFixedCb_toM]
   simp only [extract_j_coef_fixed B z s hB h j k hh hj]
-  exact (hc j.toM).symm
+  exact (complete_of_onh0 B z s hB j.toM).symm
+
+/-- C18 `parts_sum` with the proposed patch (`_partial`: uses `calcJMatFixedCb`; with the coded `calc_j_mat` the
+statement is false — `parts_sum_fails`): for every generator rebuilt from Hermitian `(H, J, K)` the h-, j- and
+k-parts computed from the extracted matrices act exactly as the generator itself, on every `ρ`, in every
+dimension. (That every Hermiticity-preserving generator is of this form is not formalised.) -/
+theorem parts_sum_fixed_partial (B : Basis K d) (z : Fin (d * d)) (s : K) (hB : ONH0 B z s)
+    (hii : (ii : K) * ii = -1)
+    (h j : Mat K d d) (k : Mat K (d * d - 1) (d * d - 1)) (hh : h.toMᴴ = h.toM) (hj : j.toMᴴ = j.toM)
+    (rho : Mat K d d) :
+    let L := cbFromHjk B h j k
+    (act (((hPart (calcHMatCb B L)).add (jPart (calcJMatFixedCb B L))).add (kPart B (calcKMatCb B L))) rho).toM
+      = (act L rho).toM := by
+  intro L
+  have hc : star (h.toM.trace / (d : K)) = h.toM.trace / (d : K) := by
+    rw [star_div₀, ← Matrix.trace_conjTranspose, hh, star_natCast]
+  rw [act_add, act_add, act_hPart, act_jPart, act_kPart, act_cbFromHjk,
+    extract_k_of_rebuild B z s hB h j k hh hj, extract_h_of_rebuild B z s hB hii h j k hh hj,
+    extract_j_of_rebuild_fixed_partial B z s hB h j k hh hj]
+  congr 2
+  rw [Matrix.conjTranspose_sub, Matrix.conjTranspose_smul, Matrix.conjTranspose_one, hc, hh]
+  simp only [Matrix.sub_mul, Matrix.mul_sub, Matrix.smul_mul, Matrix.mul_smul, Matrix.one_mul,
+    Matrix.mul_one]
+  congr 1
+  abel
 
 /-- D12 on the identity dissipator: for EVERY dimension and every admissible basis the coded `calc_j_mat`
 returns 0 for the generator rebuilt from `(H, J, K) = (0, 1, 0)` … -/
@@ -377,7 +402,7 @@ example : calcJMatCb basis1 (cbFromHjk basis1 Mat.zero Mat.one Mat.zero) ≠ Mat
   extract_rebuild_j_fails basis1 _ 1 onh0_basis1
 
 example : (calcJMatFixedCb basis1 (cbFromHjk basis1 Mat.zero Mat.one Mat.zero)).toM = (Mat.one : Mat ℂ 1 1).toM :=
-  extract_j_of_rebuild_fixed_partial basis1 _ 1 onh0_basis1 complete_basis1 _ _ _ (by simp) (by simp)
+  extract_j_of_rebuild_fixed_partial basis1 _ 1 onh0_basis1 _ _ _ (by simp) (by simp)
 end examples
 
 end QM.C18
